@@ -1216,7 +1216,7 @@ func (s *PrintCtx) appendErrorAfterPrinted(err error) {
 			// var e3 errorsv3.Error
 			// if errorsv3.As(holded, &e3) {
 			if f, ok := err.(*errorsv3.WithStackInfo); ok {
-				if st := f.StackTrace(); st != nil {
+				if st := f.StackTrace(); len(st) > 0 { // (a trace may be empty: errors made with a skip count beyond the stack)
 					s.pcAppendByte('\n')
 
 					frame := st[0]
@@ -1285,7 +1285,7 @@ func (s *PrintCtx) appendError(err error) {
 		// var e3 errorsv3.Error
 		// if errors.As(err, &e3) {
 		if f, ok := err.(*errorsv3.WithStackInfo); ok {
-			if st := f.StackTrace(); st != nil {
+			if st := f.StackTrace(); len(st) > 0 { // (a trace may be empty: errors made with a skip count beyond the stack)
 				s.pcAppendComma()
 				s.pcAppendStringKey("trace")
 				s.pcAppendColon()
